@@ -44,7 +44,15 @@ def logu(rng, lo, hi):
     return float("%.6g" % math.exp(rng.uniform(math.log(lo), math.log(hi))))
 
 
+SPECIAL = {"energy_density": [1.0], "laser_length": [1.0], "laser_radius": [0.05], "pulse_energy": [1.0], "pulse_length": [1.0],
+           "stddev_x": [0.1, 0.01], "stddev_y": [0.1, 0.01], "mean_z": [0.0, 1.0], "waist_z": [0.0], "stddev_waist": [0.1, 0.01, 1e-3],
+           "laser_wavelength": [1e3], "stddev": [1.0], "mean": [1.0]}
+
+
 def gen_value(rng, attr):
+    # now and then exactly a constructor default or an internal placeholder of the class (coincidences with "unchanged" guards)
+    if attr in SPECIAL and rng.random() < 0.06:
+        return rng.choice(SPECIAL[attr])
     if attr == "energy_density":
         return logu(rng, 1e-3, 1e6)
     if attr == "laser_length":
@@ -217,6 +225,7 @@ class LaserMachine(Machine):
         c.others = []           # further lasers alive in the same world: (laser, kind, spec of its own profile)
         c.read_since_set = False
         c.set_after_read = False
+        c.last_point = tuple(cfg["points"][0])
         c.alt = {"kind": cfg["alt"]["kind"], "spec": dict(cfg["alt"]["spec"])} if cfg.get("alt") else None
         if cfg.get("laser"):
             c.world = World()
@@ -235,6 +244,8 @@ class LaserMachine(Machine):
         if kind in PROFILE_ATTRS:
             for i, p in enumerate(c.cfg["points"]):
                 out["density@%d" % i] = float(obj.get_energy_density(*p))
+                if obj is c.obj:
+                    c.last_point = tuple(p)
                 v = obj.get_polarization(*p)
                 out["polarization@%d" % i] = [v.x, v.y, v.z]
                 v = obj.get_pointing(*p)
@@ -464,6 +475,18 @@ class LaserMachine(Machine):
                 env.fault_armed("reject")
             # every reached state must be consistent: cheap part after each mutator
             self._spec_reads(c, c.obj, c.kind, c.spec)
+            if c.is_profile:
+                # the very next query after a change, at exactly the point sampled last (memoised values must not survive)
+                pt = c.last_point
+                try:
+                    fresh = construct(c.kind, c.spec)
+                except Exception:
+                    fresh = None
+                if fresh is not None:
+                    a, b = c.obj.get_energy_density(*pt), fresh.get_energy_density(*pt)
+                    if not close(a, b, RTOL):
+                        raise Violation("stale-vs-fresh", "%s.density" % c.kind, "right after %s = %r the density at the point sampled last, %r, "
+                                        "is %r; a fresh object gives %r" % (op.get("attr", "polarization"), op.get("value"), pt, a, b))
             env.event(k, out.split(":")[0], op.get("attr", ""))
         elif k == "read":
             self._spec_reads(c, c.obj, c.kind, c.spec)
